@@ -64,6 +64,28 @@ where
             }
         }
     }
+    // The decimal number of the generic form with leading zeros (RFC 3597 §5
+    // says "decimal RR type number" and sets no width): every value, padded
+    // to 5, 6, 10 and 20 digits.
+    for v in 0..=u16::MAX {
+        for width in [5usize, 6, 10, 20] {
+            for p in [prefix.to_string(), prefix.to_lowercase()] {
+                l.tick();
+                let g = format!("{p}{v:0width$}");
+                match g.parse::<T>() {
+                    Ok(back) if back.into() == v => {}
+                    other => l.violation(&format!("{what}:generic-padded"), json!({"kind": what, "op": "generic", "text": g, "parsed": other.ok().map(|x| x.into())})),
+                }
+            }
+        }
+    }
+    l.outcome(&format!("{what}:generic-padded"), || json!({"text": format!("{prefix}000001")}));
+    for bad in [format!("{prefix}065536"), format!("{prefix}00000000000000065536"), format!("{prefix}0x1"), format!("{prefix}00 1")] {
+        l.tick();
+        if let Ok(v) = bad.parse::<T>() {
+            l.violation(&format!("{what}:accepts-garbage"), json!({"kind": what, "op": "reject", "text": bad, "parsed": v.into()}));
+        }
+    }
     l.outcome(&format!("{what}:generic-parse"), || json!({"text": format!("{prefix}65280")}));
     // Every case pattern of every mnemonic.
     for t in table {
@@ -165,7 +187,7 @@ fn main() {
     ctx.assume("mnemonic tables: the 20 types, 3 classes, 5 QTYPEs and 2 QCLASSes quandary documents (IANA values)");
     ctx.finish(
         "exploration",
-        "all 65536 values of Type/Class/Qtype/Qclass: Display->FromStr identity, Display equals the IANA mnemonic or TYPEn/CLASSn, TYPEn/CLASSn (3 case patterns) parse for every n; all 2^len case patterns of every mnemonic; all 256 u8 for Opcode/Rcode; all 65536 ExtendedRcode->Rcode",
+        "all 65536 values of Type/Class/Qtype/Qclass: Display->FromStr identity, Display equals the IANA mnemonic or TYPEn/CLASSn, TYPEn/CLASSn (3 case patterns) parse for every n, also with the number zero-padded to 5, 6, 10 and 20 digits (2 case patterns); all 2^len case patterns of every mnemonic; all 256 u8 for Opcode/Rcode; all 65536 ExtendedRcode->Rcode",
         true,
     );
 }
